@@ -48,13 +48,13 @@ DISCO_BASES = (0, 1)
 
 # The encodings of the property under other spellings that Python's codec registry (which is what
 # --src-enc / --dest-enc are handed to) resolves to the same codec.
-# NOT generated (unchanged code fails, reported to the lead as a residue of F18): the utf-16 spellings
-# utf16 / UTF16 / utf_16 and the utf-8 spelling U8 as --dest-enc of a TIGER-XML file: the writer copies
-# the spelling into the XML declaration, where it is not a name an XML parser knows.
+# The utf-16 spellings utf16 / UTF16 / utf_16 and the utf-8 spelling U8 as --dest-enc of a TIGER-XML file made the
+# writer copy the spelling into the XML declaration, where it is not a name an XML parser knows (a residue of F18;
+# repaired in /repo 99165b2, recorded as fixed in known_findings.json).
 ENC_SPELLINGS = {
-    "utf-8": ("utf8", "UTF8", "utf_8", "UTF-8"),
+    "utf-8": ("utf8", "UTF8", "utf_8", "UTF-8", "U8"),
     "latin-1": ("latin1", "ISO-8859-1", "L1", "iso8859_1"),
-    "utf-16": ("UTF-16",),
+    "utf-16": ("UTF-16", "utf16", "utf_16", "UTF16"),
 }
 ENC_FAMILY = dict((sp, fam) for fam, sps in ENC_SPELLINGS.items() for sp in sps)
 # the name OUR TIGER-XML source files declare for an alias spelling (an IANA name every XML parser knows)
